@@ -403,6 +403,7 @@ func (e *Exec) RunPath(entry *ssa.Function, prefix []Decision) (end pathEnd) {
 	// SCHED=d in the harness parameters turns schedule exploration on with delay bound d
 	e.schedBound = int(e.X.cfg.Params["SCHED"])
 	e.schedRev = e.X.cfg.Params["SCHEDREV"] != 0
+	e.raceReset()
 	e.schedBudget, e.forcePick, e.schedPoints = e.schedBound, nil, 0
 	e.nameCnt = map[string]int{}
 	e.vars = e.vars[:0]
